@@ -503,7 +503,10 @@ def gen_sim(rng, S, exact=False):
         theta = rng.choice([0.0, 90.0, 180.0, 270.0])
         t = [float(rng.randint(-30, 30)), float(rng.randint(-30, 30))]
     else:
-        lam = rng.choice([1.0, 1.0, 2.0 ** rng.randint(-10, 10), 10.0 ** rng.uniform(-3, 3)])
+        # (also changes of unit by many orders of magnitude - arcsec to radian, pixels to degrees: a threshold that is
+        #  not scale-free, e.g. an absolute epsilon in the reflection decision, shows only there)
+        lam = rng.choice([1.0, 1.0, 2.0 ** rng.randint(-10, 10), 10.0 ** rng.uniform(-3, 3), 4.84813681109536e-06,
+                          1e-6, 2.0 ** -24, 1e5])
         theta = rng.choice([0.0, 90.0, 180.0, 270.0, 45.0, 30.0, 135.0, rng.uniform(0, 360), rng.uniform(0, 360)])
         tm = rng.choice([0.1, 1.0, 1.0, 5.0]) * S * lam
         t = [rng.uniform(-1, 1) * tm, rng.uniform(-1, 1) * tm] if rng.random() < 0.8 else [0.0, 0.0]
@@ -526,11 +529,20 @@ def gen_rels(rng, prob):
     rels.append(({'kind': 'perm', 'perm': p}, None))
     Q = gen_sim(rng, S, exact)
     Q2 = [Q[0], gen_sim(rng, S, exact)[1]]
+    if not exact:
+        # another translation of the size of the TRANSFORMED data (a translation many orders of magnitude larger than
+        # the scaled data only measures the cancellation in the uncentred sums, not the fitters)
+        lamq = math.sqrt(abs(float(np.linalg.det(np.array(Q[0])))))
+        k2 = rng.choice([0.1, 1.0, 1.0, 5.0]) * S * lamq
+        Q2 = [Q[0], [rng.uniform(-1, 1) * k2, rng.uniform(-1, 1) * k2]]
     rels.append(({'kind': 'sim', 'A': Q, 'B': Q, 'label': 'both'}, None))
     if rng.random() < 0.5:
         rels.append(({'kind': 'sim', 'A': Q, 'B': Q2, 'label': 'both-other-translation'}, None))
     # one set alone
-    T = mk_sim(1.0, 0.0, False, gen_sim(rng, S, exact)[1] if not exact else [float(rng.randint(-9, 9)), 3.0])
+    # (a pure translation of the size of the data, whatever scale factor the similarities of this problem drew)
+    kt = rng.choice([0.1, 1.0, 1.0, 5.0, 100.0]) * S
+    T = mk_sim(1.0, 0.0, False, [rng.uniform(-1, 1) * kt, rng.uniform(-1, 1) * kt] if not exact
+               else [float(rng.randint(-9, 9)), 3.0])
     if rng.random() < 0.5:
         rels.append(({'kind': 'sim', 'A': T, 'B': IDENT, 'label': 'translate-xy'}, None))
     else:
